@@ -1043,6 +1043,8 @@ class Interp:
                     return True
                 if x is object:
                     return True
+                if isinstance(x, type) and x.__name__ in getattr(obj, "bases", ()):
+                    return True       # class E(int, Enum): issubclass(E, int)
             return False
         if name == "hasattr":
             obj, a = args
